@@ -161,7 +161,8 @@ func runC03(c *Ctx) {
 	// every effect x every layout of p, with a second policy definition that has fewer columns than p and
 	// several rules (the load-time sorts compare rules pairwise): the load succeeds and p2 is left in file order
 	for _, ef := range effects {
-		for _, layout := range [][]string{{"sub", "obj", "act"}, {"sub", "obj", "act", "eft"}, {"priority", "sub", "obj", "act", "eft"}, {"sub", "obj", "act", "eft", "priority"}} {
+		for _, layout := range [][]string{{"sub", "obj", "act"}, {"sub", "obj", "act", "eft"}, {"priority", "sub", "obj", "act", "eft"}, {"sub", "obj", "act", "eft", "priority"},
+			{"user", "obj", "act", "eft"}} { // the first column is the subject whatever it is called
 			if layout[0] == "priority" || layout[len(layout)-1] == "priority" {
 				if ef.name != "priority" {
 					continue
@@ -176,7 +177,7 @@ func runC03(c *Ctx) {
 			rule := func(prio, sub, obj, act, eft string) string {
 				f := []string{"p"}
 				for _, col := range layout {
-					f = append(f, map[string]string{"priority": prio, "sub": sub, "obj": obj, "act": act, "eft": eft}[col])
+					f = append(f, map[string]string{"priority": prio, "sub": sub, "user": sub, "obj": obj, "act": act, "eft": eft}[col])
 				}
 				return strings.Join(f, ", ")
 			}
